@@ -202,6 +202,14 @@ func Alphabet(corner bool) []Sym {
 		jp("json-corner", "replace-root-member-null", `[{"op":"replace","path":"/m","value":null}]`)
 		jp("json-corner", "copy-into-own-child", `[{"op":"copy","from":"/m","path":"/m/self"}]`)
 		jp("json-corner", "remove-negative-index", `[{"op":"remove","path":"/a/-1"}]`)
+		// from and path name the same location: a copy is an add of the value (an array grows by a duplicate, an object member stays),
+		// a move takes the value out and puts it back
+		jp("json-corner", "copy-a-0-onto-itself", `[{"op":"copy","from":"/a/0","path":"/a/0"}]`)
+		jp("json-corner", "copy-a-1-onto-itself", `[{"op":"copy","from":"/a/1","path":"/a/1"}]`)
+		jp("json-corner", "move-a-0-onto-itself", `[{"op":"move","from":"/a/0","path":"/a/0"}]`)
+		jp("json-corner", "copy-m-onto-itself", `[{"op":"copy","from":"/m","path":"/m"}]`)
+		jp("json-corner", "move-m-onto-itself", `[{"op":"move","from":"/m","path":"/m"}]`)
+		jp("json-corner", "copy-a-1-to-a-0", `[{"op":"copy","from":"/a/1","path":"/a/0"}]`)
 		jp("json-corner", "add-into-null", `[{"op":"add","path":"/m","value":null},{"op":"add","path":"/m2x","value":1}]`)
 	}
 	return out
